@@ -11,7 +11,7 @@ import (
 // Script: a list of samples [t, t2, ref] (nanoseconds since the Unix epoch).  For every sample the real
 // conversion functions are called and their results recorded (see spec/Ntp.tla for the clauses checked):
 //
-//	n = ToNTP(t), back = ToTime(n), n2 = ToNTP(t2), m = ToNTP32(t), back32 = ToTime32(m, ref)
+//	n = ToNTP(t), back = ToTime(n), n2 = ToNTP(t2), m = ToNTP32(t), back32 = ToTime32(m, ref), nref = ToNTP(ref)
 type vfNtpScript struct {
 	Kind    string     `json:"kind"`
 	Samples [][3]int64 `json:"samples"`
@@ -36,7 +36,7 @@ func TestVerifNtpExec(t *testing.T) {
 			out.Emit(vfM{
 				"a": "ntp", "t": s[0], "n": n, "back": ToTime(n).UnixNano(),
 				"t2": s[1], "n2": ToNTP(t2),
-				"m": m, "ref": s[2], "back32": ToTime32(m, ref).UnixNano(),
+				"m": m, "ref": s[2], "back32": ToTime32(m, ref).UnixNano(), "nref": ToNTP(ref),
 			})
 		}
 	}
